@@ -246,13 +246,15 @@ def shrink(ctx, req, key, budget=400):
     cur = req
     steps = 0
     improved = True
-    while improved and steps < budget:
+    t0 = time.time()
+    limit = float(ctx.cfg.get('shrink_seconds', 120))
+    while improved and steps < budget and time.time() - t0 < limit:
         improved = False
         path = os.path.join(ctx.work, 'shrink.cur')
         with open(path, 'w') as f:
             f.write(cur + '\n')
         rc, out = sh([HBIN, 'candidates', path], timeout=120)
-        cands = [l for l in out.splitlines() if l.strip()]
+        cands = [l for l in out.splitlines() if l.strip()][:int(ctx.cfg.get('shrink_candidates', 200))]
         if not cands:
             break
         cpath = os.path.join(ctx.work, 'shrink.req')
